@@ -128,6 +128,15 @@ T = {
  "C14-7": ("C14", "d77d3e0", "Create over an existing local database with CreateDBOptions.Directory set to another directory", ["C14"], "VIOLATION (native replay) by VerifC14Reopen"),
  "C16-7": ("C16", "d77d3e0", "a bus subscriber stalled for at least 146 events, then reading again", ["C16"], "VIOLATION by VerifC05Crash (late reader)"),
  "C20-7": ("C20", "d77d3e0", "Connect / Send to the local peer's own id", ["C20"], "VIOLATION (native replay) by VerifC20Monitor (channel-with-self)"),
+ # round 12 (base a87e428)
+ "C02-8": ("C02", "a87e428", "two or more head-exchange payloads for one store, from different peers with different heads, queued on the direct channel at once", ["C02"], "VIOLATION by VerifC02ThreeWay"),
+ "C03-7": ("C03", "a87e428", "two local writes on one store, the first refused by the access controller", ["C03"], "VIOLATION (deadlock) by VerifC03LocalWrite (denied-twice)"),
+ "C04-7": ("C04", "a87e428", "a badly signed entry fetched as an ancestor through refs only while the next entries linking it are already held", ["C04"], "VIOLATION (native replay) by VerifC04Tampered (refs-only ancestor)"),
+ "C09-7": ("C09", "a87e428", "two replicating databases, one peer joining both topics, a slow Connect, the first requester's database closed mid-attempt", ["C09"], "VIOLATION by VerifC09SlowConnect"),
+ "C11-6": ("C11", "a87e428", "a complete Load with two cached heads interrupted between heads (cancel or unreadable head block), then a later Load", ["C11"], "VIOLATION (native replay) by VerifC11LoadAbort"),
+ "C13-7": ("C13", "a87e428", "a cache Put failing after the snapshot file was added (second save)", ["C13"], "VIOLATION (native replay) by VerifC13SaveFault"),
+ "C16-8": ("C16", "a87e428", "PutBatch of several documents with a storage error on a later member", ["C16"], "VIOLATION (native replay) by VerifC16BatchFailure"),
+ "C18-8": ("C18", "a87e428", "Drop reaching its reset section while a local write is inside Append", ["C18"], "VIOLATION (deadlock) by VerifC18DropDuring"),
 }
 for seed, (prop, base, needs, by, note) in T.items():
     d = os.path.join(V, "seeded", seed)
